@@ -251,6 +251,18 @@ R15 = {
  "C19": "a chunk count obtained by division is behind a test that the set is not empty",
 }
 
+# Clauses added in round 17 (DESIGN.md §10.16).
+R17 = {
+ "C01": "the '+' line is written from the same arguments as the '@' line; at end of input the pending line fragments are looked at before an error of the reader's own is returned",
+ "C04": "at end of input the pending line fragments are looked at before an error of the reader's own is returned",
+ "C06": "Truncate's range tests accept the sequence's own bounds",
+ "C07": "Truncate's range tests accept the sequence's own bounds; a column cut as the tail of a growing block has a capacity limit",
+ "C10": "whole-sequence subscripts and subscripts of a cut of the sequence are not mixed in the k-mer scanner",
+ "C17": "the complement table is filled before its unpaired entries are marked",
+ "C19": "the end of every chunk is clamped to the length of the input",
+ "C18": "every float-to-score conversion of Ephred and Esolexa is saturated first (found and repaired a defect of the tree: Esolexa wrapped for probabilities within 2e-13 of 0 or 1)",
+}
+
 NOT_APPLICABLE = {
 }
 
@@ -297,7 +309,11 @@ def main():
                 tech = tech + "; " + R15[pid]
                 text = text + " Round 15 (DESIGN §10.14) adds: " + R15[pid] + "."
                 ref = ref + ", §10.14"
-            text = text + " The thorough tier also replays the independently written behaviour-preserving refactorings of /verif/benign (DESIGN §10.8, §10.9, §10.11, §10.13) and fails if one of them is reported."
+            if pid in R17:
+                tech = tech + "; " + R17[pid]
+                text = text + " Round 17 (DESIGN §10.16) adds: " + R17[pid] + "."
+                ref = ref + ", §10.16"
+            text = text + " The thorough tier also replays the independently written behaviour-preserving refactorings of /verif/benign (DESIGN §10.8, §10.9, §10.11, §10.13, §10.15, §10.17) and fails if one of them is reported."
             checks.append({
                 "property_id": pid,
                 "quick_cmd": "./check %s quick" % pid,
